@@ -158,7 +158,7 @@ def run_property(prop, tier, seed, only=None, jobs=None, verbose=False, list_onl
                 print(f"  [{r['verdict']:12s}] {r.get('name')}  {r.get('wall_s', 0)}s", flush=True)
         if not done:
             time.sleep(0.05)
-    return finish(prop, tier, seed, results, meta, time.time() - t0, verbose)
+    return finish(prop, tier, seed, results, meta, time.time() - t0, verbose, partial=bool(only))
 
 
 _CLK = os.sysconf("SC_CLK_TCK") if hasattr(os, "sysconf") else 100
@@ -181,9 +181,11 @@ def _crash(ob, why):
             "procedure": [], "sx": {}, "wall_s": 0}
 
 
-def finish(prop, tier, seed, results, meta, wall, verbose):
+def finish(prop, tier, seed, results, meta, wall, verbose, partial=False):
     known, fixed = load_known()
-    os.makedirs(EVID, exist_ok=True)
+    # a run restricted with --only is a development run: its evidence goes to scratch/, never over the record of a full run
+    evid_dir = os.path.join(_OUT, "scratch", "partial_evidence") if partial else EVID
+    os.makedirs(evid_dir, exist_ok=True)
     results.sort(key=lambda r: r.get("name", ""))
     n_ob = len(results)
     disc = [r for r in results if r["verdict"] == "discharged"]
@@ -317,7 +319,7 @@ def finish(prop, tier, seed, results, meta, wall, verbose):
         "wall_s": round(wall, 3),
         "violations": int(new_violations),
     }
-    with open(os.path.join(EVID, f"{prop}.json"), "w") as f:
+    with open(os.path.join(evid_dir, f"{prop}.json"), "w") as f:
         json.dump(ev, f, indent=1, default=str)
     print(f"{prop} [{tier}] obligations={n_ob} discharged={len(disc)} inconclusive={len(inc)} "
           f"violated={len(vio)} (known={len(known_hits)}) goals={goals} paths={paths} queries={q} "
